@@ -257,6 +257,10 @@ def main(argv=None):
                 # every failing path went through a loop cut without invariant (over-approximation): not a verdict
                 undecided.append(f"{full}: fails only on over-approximated paths (loop without invariant, uninterpreted library model) and no replay confirms it")
                 continue
+            if confirmed is None and any(rp.get("representation_only") for rp in o["replays"]):
+                undecided.append(f"{full}: the returned representation differs from the specified one, but on the counterexample it denotes an equal object "
+                                 "(no input found on which the property itself fails; the contract pins the representation and needs adapting)")
+                continue
             kf = match_finding(findings, r["target"], name, confirmed, o)
             if kf is not None:
                 matched_findings.add(kf["id"])
@@ -276,6 +280,8 @@ def main(argv=None):
                 continue
             if rep.get("pre_ok"):
                 n_samples_nontrivial += 1
+            if rep.get("representation_only") and not rep.get("failed"):
+                undecided.append(f"{label}: sample {rep['representation_only'][0]}: the returned representation differs from the specified one but denotes an equal object")
             if rep.get("failed"):
                 kf = match_finding(findings, r["target"], rep["failed"][0], rep, None)
                 if kf is not None:
